@@ -403,6 +403,9 @@ Proof.
       destruct res; cbn in Hres; destruct Hres as [-> ->]; reflexivity.
     + destruct Hmm as (-> & _). reflexivity.
     + destruct Hmm as (-> & _). reflexivity.
+  - (* 8 *) apply forallb_forall. intros [a b] Hi. cbn [fst snd].
+    destruct (memN a (call_nodes tr)) eqn:Ea; [|reflexivity]. destruct (memN b (call_nodes tr)) eqn:Eb; [|reflexivity].
+    apply memN_in in Ea. apply memN_in in Eb. exfalso. exact (top_once e op s Hn a b Hi (conj Ea Eb)).
 Qed.
 
 (* ---------- C05, clauses 5 and 6 ---------- *)
